@@ -116,6 +116,21 @@ class SecurityControlField:
         raw |= self.service
         return raw.to_bytes(1, "big")
 
+    def __eq__(self, other: object) -> bool:
+        """Equal if all fields are equal."""
+        if not isinstance(other, SecurityControlField):
+            return NotImplemented
+        return (
+            self.tool_access == other.tool_access
+            and self.algorithm == other.algorithm
+            and self.system_broadcast == other.system_broadcast
+            and self.service == other.service
+        )
+
+    def __hash__(self) -> int:
+        """Hash of the encoded field."""
+        return hash(self.to_knx())
+
     def __str__(self) -> str:
         """Return object as readable string."""
         return (
@@ -141,6 +156,26 @@ class SecureData:
         self.sequence_number_bytes = sequence_number_bytes
         self.secured_apdu = secured_apdu
         self.message_authentication_code = message_authentication_code
+
+    def __eq__(self, other: object) -> bool:
+        """Equal if all fields are equal."""
+        if not isinstance(other, SecureData):
+            return NotImplemented
+        return (
+            self.sequence_number_bytes == other.sequence_number_bytes
+            and self.secured_apdu == other.secured_apdu
+            and self.message_authentication_code == other.message_authentication_code
+        )
+
+    def __hash__(self) -> int:
+        """Hash of all fields."""
+        return hash(
+            (
+                bytes(self.sequence_number_bytes),
+                bytes(self.secured_apdu),
+                bytes(self.message_authentication_code),
+            )
+        )
 
     def __len__(self) -> int:
         """Return length of KNX Data Secure ASDU."""
